@@ -69,9 +69,10 @@ OUTSIDE = ["ufunc values and dtype promotion (NumPy C code) beyond the e2e witne
            "the data movement of rechunk (C23)", "dask.array.blockwise.blockwise, elemwise, handle_out themselves need real Arrays and NumPy metas: e2e witnesses only",
            "out= larger than the broadcast shape of the inputs (dask refuses with ValueError, NumPy broadcasts)"]
 BOUNDS = {
-    "quick": dict(broadcast_shapes="1..3 shapes, ndim 0..2, dims symbolic in [0,4]", common_blockdim="2..3 tuples of 1..3 chunks, sizes symbolic in [1,4] (single chunk [0,4]), dim <= 4",
-                  unify="operand ndims (1,1) dim<=4 <=3 chunks; (2,1) dim<=4 <=2 chunks; (1,2) (2,2) dim<=3 <=2 chunks; (1,1,1) dim<=3 <=3 chunks; (2,2,1) dim<=3 1 chunk",
-                  broadcast_chunks="(1,1) dim<=3 <=3 chunks; (2,1) dim<=2 <=2 chunks; (1,1,1) dim<=3 <=2 chunks; one operand axis optionally chunked differently",
+    "quick": dict(broadcast_shapes="1..2 shapes of ndim 0..2, 3 shapes of ndim (2, 0..2, 0..2), dims symbolic in [0,4]",
+                  common_blockdim="2..3 tuples of 1..3 chunks, sizes symbolic in [1,4] (single chunk [0,4]), dim <= 4",
+                  unify="operand ndims (1,1) dim<=4 <=3 chunks; (2,1) (1,2) (2,2) dim<=3 <=2 chunks; (1,1,1) dim<=3 <=3 chunks; (2,2,1) dim<=3 1 chunk",
+                  broadcast_chunks="(1,1) dim<=3 <=3 chunks; (2,1) (1,1,1) dim<=2 <=2 chunks; one operand axis optionally chunked differently",
                   blockwise="<= 3 inputs, ndim <= 2, numblocks symbolic in [1,3]", broadcast_to="1-d source <=2 chunks dims in [0,3] <=1 new axis with/without chunks=; 2-d source dims in [0,2] no new axis",
                   empty_chunks="common_blockdim 2 tuples of <=2 chunks in [0,2], dim<=2; unify (1,1) <=2 chunks in [0,2], dim<=2, size-1 axes (1,) (1,0) (0,1)"),
     "thorough": dict(broadcast_shapes="1..2 shapes ndim 0..3, 3 shapes ndim 0..2, dims symbolic in [0,9]", common_blockdim="2 tuples of <=4 chunks / 3 tuples of <=3 chunks, sizes in [1,5], dim <= 6",
@@ -374,11 +375,12 @@ def ops_from_model(model, ndims, maxn, DMAX, CH, zero=False):
 
 # ---------------------------------------------------------------- (1) broadcast_shapes
 
-def mk_bshape(k, maxnd, DMAX):
+def mk_bshape(k, maxnd, DMAX, first_full=False):
+    """first_full: the first shape has exactly maxnd dimensions (quick tier, 3 shapes: a third of the ndim combinations)"""
     def setup(e):
         shapes = []
         for o in range(k):
-            m = e.choice(f"nd{o}", maxnd + 1)
+            m = maxnd if (first_full and o == 0) else e.choice(f"nd{o}", maxnd + 1)
             shapes.append(tuple(e.int(f"s{o}_{a}", 0, DMAX) for a in range(m)))
         return (shapes,)
 
@@ -407,11 +409,11 @@ def mk_bshape(k, maxnd, DMAX):
     def e2e(model):
         shapes = []
         for o in range(k):
-            m = model.get(f"nd{o}", 0)
+            m = maxnd if (first_full and o == 0) else model.get(f"nd{o}", 0)
             shapes.append(tuple(model[f"s{o}_{a}"] for a in range(m)))
         e2e_elemwise([tuple(_split(n, 2 + o) if n else (0,) for n in s) for o, s in enumerate(shapes)], light=True)
 
-    return Obligation(f"broadcast_shapes[k={k},ndim<={maxnd},dim<={DMAX}]", setup, run, patches=_patches, e2e=e2e, e2e_every=3)
+    return Obligation(f"broadcast_shapes[k={k},ndim<={maxnd}{'(first=' + str(maxnd) + ')' if first_full else ''},dim<={DMAX}]", setup, run, patches=_patches, e2e=e2e, e2e_every=3)
 
 
 # ---------------------------------------------------------------- (2) common_blockdim
@@ -847,13 +849,14 @@ def mk_broadcast_to(m, maxn, DMAX, maxnew, with_chunks):
 def obligations(tier):
     obs = []
     if tier == "quick":
-        for k in (1, 2, 3):
-            obs.append(mk_bshape(k, 2, 4))
+        obs.append(mk_bshape(1, 2, 4))
+        obs.append(mk_bshape(2, 2, 4))
+        obs.append(mk_bshape(3, 2, 4, first_full=True))
         obs.append(mk_common(2, 3, 4, 4))
         obs.append(mk_common(3, 3, 4, 4))
-        for ndims, maxn, dmax, ev in (((1, 1), 3, 4, 3), ((2, 1), 2, 4, 7), ((1, 2), 2, 3, 7), ((2, 2), 2, 3, 11), ((1, 1, 1), 3, 3, 7), ((2, 2, 1), 1, 3, 7)):
+        for ndims, maxn, dmax, ev in (((1, 1), 3, 4, 3), ((2, 1), 2, 3, 7), ((1, 2), 2, 3, 7), ((2, 2), 2, 3, 11), ((1, 1, 1), 3, 3, 7), ((2, 2, 1), 1, 3, 7)):
             obs.append(mk_unify(ndims, maxn, dmax, 4, ev))
-        for ndims, maxn, dmax in (((1, 1), 3, 3), ((2, 1), 2, 2), ((1, 1, 1), 2, 3)):
+        for ndims, maxn, dmax in (((1, 1), 3, 3), ((2, 1), 2, 2), ((1, 1, 1), 2, 2)):
             obs.append(mk_bchunks(ndims, maxn, dmax, 4))
         for p in ("ij,j", "ij,ij", "i,i,i", "ij,j,lit", "ij,ij,j", "ij,ji", "ij,lit,ij", "j,ij"):
             obs.append(mk_blockwise(p, 3))
